@@ -196,9 +196,10 @@ RefStep(r, e) ==
          ELSE IF r.pend # {} THEN RFail(r, "marker")
          ELSE [r EXCEPT !.st = "done"]
     [] m = "OnPadding" -> r
-    [] m = "OnComment" -> IF e.cmtok THEN r ELSE RFail(r, "array")
+    [] m = "OnComment" -> IF e.pok THEN r ELSE RFail(r, "array")
     [] m = "OnNull" -> Scalar(r, "null", <<>>)
     [] m \in RKeyMethods -> IF e.sp = "nil" THEN Scalar(r, "null", <<>>)
+                            ELSE IF m = "OnTime" /\ ~e.pok THEN RFail(r, "array")
                             ELSE Scalar(r, "key", <<e.dt, e.k, <<>> >>)
     [] m \in RFloatMethods -> IF e.sp = "nil" THEN Scalar(r, "null", <<>>)
                               ELSE IF e.sp \in {"qnan", "snan"} THEN Scalar(r, "other", <<>>)
